@@ -51,14 +51,15 @@ Record state_rel (s1 : pstate N G1 D1 E1) (s2 : pstate N G2 D2 E2) : Type := {
   sr_spos : AR (s_spos _ _ _ _ s1) (s_spos _ _ _ _ s2);
   sr_lp : s_lp _ _ _ _ s1 = s_lp _ _ _ _ s2;
   sr_ln : s_ln _ _ _ _ s1 = s_ln _ _ _ _ s2;
-  sr_started : s_started _ _ _ _ s1 = s_started _ _ _ _ s2
+  sr_started : s_started _ _ _ _ s1 = s_started _ _ _ _ s2;
+  sr_depth : s_depth _ _ _ _ s1 = s_depth _ _ _ _ s2
 }.
 
 Lemma state_rel_R s1 s2 :
   state_rel s1 s2 -> pstate_R N N AR G1 G2 total D1 D2 total E1 E2 total s1 s2.
 Proof.
-  intros [Hc Hr Hm Ht Hs Hlp Hln Hst].
-  destruct s1 as [c1 r1 m1 t1 p1 lp1 ln1 d1 st1], s2 as [c2 r2 m2 t2 p2 lp2 ln2 d2 st2].
+  intros [Hc Hr Hm Ht Hs Hlp Hln Hst Hdp].
+  destruct s1 as [c1 r1 m1 t1 p1 lp1 ln1 d1 st1 dp1], s2 as [c2 r2 m2 t2 p2 lp2 ln2 d2 st2 dp2].
   cbn in *. subst. constructor; try exact I.
   - destruct c1 as [[a t]|], c2 as [[b t']|]; try contradiction.
     + destruct Hc as [Hab ->]. constructor. constructor; [exact Hab|apply token_R_refl].
@@ -70,6 +71,7 @@ Proof.
   - apply nat_R_refl.
   - apply nat_R_refl.
   - apply bool_R_refl.
+  - apply nat_R_refl.
 Qed.
 
 End Related.
@@ -225,10 +227,8 @@ Qed.
 
 Lemma state_rel_diag (s : pstate N G D E) : state_rel (diagR (state_positions s)) s s.
 Proof.
-  destruct s as [c r m t p lp ln d st].
-  assert (Hin : forall q, In q (state_positions (Build_pstate N G D E c r m t p lp ln d st)) ->
-                          In q (state_positions (Build_pstate N G D E c r m t p lp ln d st))) by auto.
-  constructor; cbn [s_cur s_rest s_mark s_term s_spos s_lp s_ln s_started]; try reflexivity.
+  destruct s as [c r m t p lp ln d st dp].
+  constructor; cbn [s_cur s_rest s_mark s_term s_spos s_lp s_ln s_started s_depth]; try reflexivity.
   - destruct c as [[a tk]|]; [|exact I]. split; [|reflexivity]. split; [reflexivity|].
     apply from_stream_in. unfold state_positions. cbn. right. left. reflexivity.
   - apply elems_rel_diag. intros q Hq. unfold state_positions. cbn [s_spos s_cur s_rest s_mark s_term].
@@ -412,10 +412,10 @@ Qed.
 Theorem shift_run_expression k p1 p2 n1 t1 :
   shifted k p1 p2 ->
   entry_expression _ _ _ _ _ (policy p1) (parsers_of p1)
-    (init_state N (list comment) cstate scan_err 0 {| c_all := []; c_lead := [] |} (pr_elems p1) (pr_term p1)) = Ok n1 t1 ->
+    (init_state N (list comment) cstate scan_err 0 {| c_all := []; c_lead := []; c_prev := None |} (pr_elems p1) (pr_term p1)) = Ok n1 t1 ->
   exists n2 t2,
     entry_expression _ _ _ _ _ (policy p2) (parsers_of p2)
-      (init_state N (list comment) cstate scan_err k {| c_all := []; c_lead := [] |} (pr_elems p2) (pr_term p2)) = Ok n2 t2 /\
+      (init_state N (list comment) cstate scan_err k {| c_all := []; c_lead := []; c_prev := None |} (pr_elems p2) (pr_term p2)) = Ok n2 t2 /\
     erase n2 = erase n1 /\ positions n2 = map (fun a => a + k) (positions n1).
 Proof.
   intros [He Ht] Hr.
